@@ -122,6 +122,32 @@ def IRelOK (s : String) : Prop := hasLower s.toList ∧ s ∉ hrelNames ∧ s.to
 def PredOK (s : String) : Prop := '(' ∉ normalizePred s ∧ '{' ∉ normalizePred s
 def CargOK (c : String) : Prop := ')' ∉ c.toList
 
+/-- what is compared of one property: upper-cased name, lower-cased value -/
+def keyOf (q : String × String) : List Char × List Char := (upperC q.1.toList, lowerC q.2.toList)
+def renderKey (k : List Char × List Char) : List Char := k.1 ++ ['='] ++ k.2
+
+/-- hygiene of a property list: names without lower-case letter, `=` or `|`; values without `|`;
+distinct names -/
+def PropsOK (ps : Props) : Prop :=
+  (∀ q ∈ ps, noLower q.1.toList ∧ '=' ∉ q.1.toList ∧ '|' ∉ q.1.toList ∧ '|' ∉ lowerC q.2.toList)
+  ∧ (ps.map (·.1)).Nodup
+
+def partOf (properties : Bool) (ps : Props) : Label := if properties && !ps.isEmpty then propString ps else []
+def keysOf (properties : Bool) (ps : Props) : List (List Char × List Char) := if properties then ps.map keyOf else []
+
+/-- the properties that are compared for a predication: those of its intrinsic (for a quantifier: bound)
+variable — properties of variables that occur only as arguments are not compared (as in the code:
+`x.variables.get(ep.iv)`) -/
+def ivProps (m : MRS) (e : EP) : Props :=
+  match e.iv with
+  | some v => m.props v
+  | none => []
+
+/-- the multiset (as a list up to permutation) of (upper-cased name, lower-cased value) pairs of the
+intrinsic variable, when properties are compared -/
+def propKey (properties : Bool) (m : MRS) (e : EP) : List (List Char × List Char) :=
+  keysOf properties (ivProps m e)
+
 /-- the input space of the faithfulness theorem (all clauses decidable) -/
 structure InSpace (properties : Bool) (m : MRS) : Prop where
   names : NamesOK m
@@ -132,6 +158,7 @@ structure InSpace (properties : Bool) (m : MRS) : Prop where
   irel : ∀ c ∈ m.icons, IRelOK c.rel
   preds : ∀ e ∈ m.rels, PredOK e.predicate
   cargs : ∀ e ∈ m.rels, ∀ c, e.carg = some c → CargOK c
+  props : ∀ e ∈ m.rels, PropsOK (ivProps m e)
   clean : ∀ g, mkIsoGraph properties m = .ok g → cleanGraph g = true
 
 /-- `(constant)` -/
@@ -151,14 +178,15 @@ def propPart (properties : Bool) (m : MRS) (e : EP) : Label :=
 structure EPEq (properties : Bool) (σ : Var → Var) (m1 m2 : MRS) (e1 e2 : EP) : Prop where
   pred : normalizePred e1.predicate = normalizePred e2.predicate
   carg : e1.carg = e2.carg
-  props : propPart properties m1 e1 = propPart properties m2 e2
+  props : (propKey properties m1 e1).Perm (propKey properties m2 e2)
   label : σ e1.label = e2.label
   args : (e1.args.map (fun a => (a.1, σ a.2))).Perm e2.args
 
 /-- **MRS isomorphism** (no graph involved): `σ` is a bijection from the variables of `m1` onto those
 of `m2`; the predications can be paired off so that paired predications have the same normalised
-predicate, the same constant, the same canonical property text of the intrinsic variable (when
-properties are compared), `σ`-related labels (scopes) and `σ`-related role-labelled arguments; handle
+predicate, the same constant, the same multiset of (upper-cased name, lower-cased value) property pairs of the
+intrinsic — for a quantifier: bound — variable (when properties are compared; properties of variables that are
+arguments only are not compared), `σ`-related labels (scopes) and `σ`-related role-labelled arguments; handle
 constraints and individual constraints correspond under `σ` as multisets. -/
 structure MRSIsoVia (properties : Bool) (σ : Var → Var) (m1 m2 : MRS) : Prop where
   inj : ∀ v ∈ filledVars m1, ∀ w ∈ filledVars m1, σ v = σ w → v = w
@@ -178,6 +206,7 @@ instance (s : String) : Decidable (HRelOK s) := by unfold HRelOK; exact inferIns
 instance (s : String) : Decidable (IRelOK s) := by unfold IRelOK; exact inferInstance
 instance (s : String) : Decidable (PredOK s) := by unfold PredOK; exact inferInstance
 instance (s : String) : Decidable (CargOK s) := by unfold CargOK; exact inferInstance
+instance (ps : Props) : Decidable (PropsOK ps) := by unfold PropsOK; exact inferInstance
 
 /-- Boolean form of `InSpace`, evaluated by the driver on every generated case -/
 def inSpaceb (properties : Bool) (m : MRS) : Bool :=
@@ -188,6 +217,7 @@ def inSpaceb (properties : Bool) (m : MRS) : Bool :=
   && decide (∀ c ∈ m.icons, IRelOK c.rel)
   && decide (∀ e ∈ m.rels, PredOK e.predicate)
   && decide (∀ e ∈ m.rels, ∀ c, e.carg = some c → CargOK c)
+  && decide (∀ e ∈ m.rels, PropsOK (ivProps m e))
   && (match mkIsoGraph properties m with
       | .ok g => cleanGraph g
       | .error _ => true)
